@@ -40,7 +40,7 @@ C06_OPS = [o for o in entries.OPS if o.startswith("batch_cast_to_") or o.startsw
 C05_OPS = [o for o in entries.OPS if o.split("_")[0] in ("zip", "swizzle", "compress", "expand", "extract", "insert", "slide", "rotate", "shuffle")]
 C05_OPS.append("transpose")
 C05_QUICK = ["transpose", "zip_lo", "zip_hi", "swizzle_dyn", "compress", "expand", "extract_pair", "insert_0", "insert_3", "slide_left_1", "slide_left_3", "slide_right_1", "slide_right_7",
-             "slide_right_8", "rotate_left_1", "rotate_left_3", "rotate_right_1", "rotate_right_3", "shuffle_zipstride", "shuffle_ziplo", "shuffle_ziphi", "shuffle_mix", "shuffle_sel"]
+             "slide_right_8", "rotate_left_1", "rotate_left_3", "rotate_right_1", "rotate_right_3", "shuffle_zipstride", "shuffle_ziplo", "shuffle_ziphi", "shuffle_mix", "shuffle_sel", "shuffle_lodup"]
 
 C09_OPS = ["reduce_add", "reduce_max", "reduce_min", "haddp"]
 
